@@ -2,10 +2,11 @@
    encodings).  Statements only; every proof is `exact <lemma>` and is followed by Print Assumptions.
    Model: Model/Cmap.v (after src/tables/cmap.rs, src/font.rs), Model/MacRoman.v over the tables
    regenerated from src/macroman.rs.  Specification: Model/CmapSpec.v (OpenType text).
-   Not covered by theorems (correspondence only): format 2, Big5 (encoding_rs data). *)
+   Partial: format 2 (single lookups of the codes the format defines; nothing about mappings_fn).
+   Not covered by theorems (correspondence only): Big5 (encoding_rs data). *)
 From AV Require Import Base.Prelude Gen.MacRomanTables Gen.CmapPrefs
   Model.MacRoman Model.MacRomanRef Model.Cmap Model.CmapSpec
-  Proofs.CmapProofs Proofs.CmapParseProofs Proofs.MacRomanProofs.
+  Proofs.CmapProofs Proofs.CmapParseProofs Proofs.CmapFormat2Proofs Proofs.MacRomanProofs.
 Open Scope Z_scope.
 
 (* ---- 1. single lookups conform to the specification: formats 0, 4, 6, 10, 12 ---------------- *)
@@ -71,6 +72,26 @@ Theorem C06_owned_map_glyph : forall st c,
   supported st -> 0 <= c -> owned_map_glyph st c = map_glyph st c.
 Proof. exact owned_map_glyph_eq. Qed.
 Print Assumptions C06_owned_map_glyph.
+
+(* format 2, PARTIAL: single lookups only, and only for the codes the format defines (a one-byte code
+   whose subHeaderKey is 0, a two-byte code whose lead byte has subHeaderKey 8k, k <> 0).  Other codes
+   (a lead byte alone, a second byte after a non-lead byte, keys that are not multiples of 8) and the
+   format 2 enumeration are covered by correspondence only. *)
+Theorem C06_format2_complete_partial : forall l keys headers scope c g,
+  len keys = 256 ->
+  (forall k sh, get headers k = Some sh -> 0 <= sh_ro sh) ->
+  f2_assigns keys headers scope c g ->
+  map_glyph (F2 l keys headers scope) c = Ok (Some g).
+Proof. exact f2_complete. Qed.
+Print Assumptions C06_format2_complete_partial.
+
+Theorem C06_format2_sound_partial : forall l keys headers scope c lo k sh g,
+  len keys = 256 -> 0 <= c <= 65535 -> 0 <= sh_ro sh ->
+  f2_selects keys c lo k -> get headers k = Some sh ->
+  map_glyph (F2 l keys headers scope) c = Ok (Some g) ->
+  f2_assigns keys headers scope c g.
+Proof. exact f2_sound. Qed.
+Print Assumptions C06_format2_sound_partial.
 
 (* ---- 2. enumeration = single lookups ------------------------------------------------------- *)
 
@@ -270,6 +291,13 @@ Example ex4_unsorted_lookup : map_glyph ex4_unsorted 7 = Ok (Some 7).
 Proof. vm_compute. reflexivity. Qed.
 Example ex4_unsorted_spec : unassigned ex4_unsorted 7.
 Proof. exact ex4_unsorted_spec_proof. Qed.
+
+(* format 2: lead byte 0x81, second byte 0x41 -> glyphIdArray word 300 + idDelta 5; 0x42 -> word 0 = missing *)
+Example ex2_lookup : map_glyph ex2 33089 = Ok (Some 305) /\ map_glyph ex2 33090 = Ok (Some 0) /\
+                     map_glyph ex2 33091 = Ok (Some 0) /\ map_glyph ex2 65 = Ok (Some 34).
+Proof. vm_compute. repeat split; reflexivity. Qed.
+Example ex2_spec : f2_assigns ex2_keys ex2_headers ex2_scope 33089 305.
+Proof. exact ex2_assigns_two_byte. Qed.
 
 Definition ex12 : subtable := F12 0 [ {| g_start := 65536; g_end := 65540; g_gid := 65533 |} ].
 Example ex12_ok : map_glyph ex12 65538 = Ok (Some 65535).
